@@ -99,8 +99,17 @@ TTypedSeek ==
            /\ e.typed.err = e.conv.err
            /\ e.typed.requested = e.conv.requested /\ e.typed.actual = e.conv.actual
 
+\* the complete Reader: read() and read_as::<S, Record>() return the same pairs (shape type, row index) or fail alike,
+\* also when the table holds a further row that cannot be parsed
+TTypedPairs ==
+    /\ Ev("typedpairs") /\ UNCHANGED << nxt, done, seen, cur >>
+    /\ LET e == Rec[l]
+       IN  /\ e.generic.err = e.typed.err /\ e.generic.pairs = e.typed.pairs
+           /\ e.generic.err # "panic"
+           /\ ~e.extraRow => (e.generic.err = "" /\ e.generic.pairs = [i \in 1..e.n |-> << e.t, i - 1 >>])
+
 Init == l = 2 /\ nxt = I32Min /\ done = FALSE /\ seen = {} /\ cur = [types |-> << >>]
-Next == TReset \/ TType \/ TRun \/ TRunsEnd \/ TRoute \/ TRouteBulk \/ TStatic \/ TTypedFile \/ TTyped \/ TTypedSeek
+Next == TReset \/ TType \/ TRun \/ TRunsEnd \/ TRoute \/ TRouteBulk \/ TStatic \/ TTypedFile \/ TTyped \/ TTypedSeek \/ TTypedPairs
 Spec == Init /\ [][Next]_vars
 
 Accepted ==
